@@ -97,7 +97,10 @@ Example C14_roundtrip_example :
                  (EObj (ONamed (lit "k") (EField (lit "k")) (OSpread (EField (lit "o")) ONil)))
                  (EIndex (EField (lit "l")) (EBin BAdd (EField (lit "i")) (EInt 1))) in
   wf e /\ parse_cond (sx_core (fun _ => []) e ++ lit "}}") = POk e (lit "}}").
-Proof. split; [cbn; repeat split; (reflexivity || discriminate || (intro Hc; discriminate Hc))|vm_compute; reflexivity]. Qed.
+Proof.
+  split; [|vm_compute; reflexivity].
+  cbn; repeat split; try reflexivity; try discriminate; try (intro Hc; discriminate Hc); try (left; reflexivity).
+Qed.
 
 (* the number scanner reads back what the printer writes for a non-negative i64 *)
 Theorem C14_integer_literal_roundtrip : forall z tail, (0 <= z <= i64_max)%Z -> follow_num tail ->
@@ -187,3 +190,22 @@ Theorem C14_template_data_roundtrip : forall names fs, wf (EObj fs) -> forall re
   ExprParse.binding true (sx_core names (EObj fs) ++ 125%N :: 125%N :: rest) = (Some (EObj fs), rest).
 Proof. intros names fs H rest. exact (print_parse_template_data names num_roundtrip z_to_str_head fs H rest). Qed.
 Print Assumptions C14_template_data_roundtrip.
+
+(* ---- the statement over ALL source texts ----
+   Whatever text the expression parser accepts (any characters, comments, redundant parentheses, any spelling of
+   numbers and strings), the expression it returns - when it contains no float literal - is printed by the
+   stringifier as a text that parses back to exactly that expression: parse (print (parse s)) = parse s.
+   (The parser's image lies inside the well-formed expressions of the round-trip theorem: C14_parser_image.) *)
+From GE Require Import Proofs.ParserImage.
+Theorem C14_parser_image : forall s e r, parse_cond s = POk e r -> wff e.
+Proof. exact parser_image_wff. Qed.
+Print Assumptions C14_parser_image.
+
+Theorem C14_parse_print_parse : forall names s e r, parse_cond s = POk e r -> nofloat e ->
+  forall rest, parse_cond (sx_core names e ++ 125%N :: 125%N :: rest) = POk e (125%N :: 125%N :: rest).
+Proof. exact parse_print_parse. Qed.
+Print Assumptions C14_parse_print_parse.
+
+Example C14_parse_print_parse_example :
+  exists e r, parse_cond (lit " ( a /* c */ ? 5+1:{typeof , x :[ , ...b ]} ) .k ['\x41'] ( ) }}") = POk e r /\ nofloat e.
+Proof. eexists _, _. split; [vm_compute; reflexivity|]. cbn. tauto. Qed.
